@@ -160,6 +160,23 @@ def run(ctx):
             xp = soup(rng) if r < 0.55 else derived_miss(rng, t)
             cases.append({"tree": t, "mode": mode, "xp": xp})
     ctx.evaluate("lookup", cases, check_lookup, in_known=in_known, nontrivial=lambda c: len(c["xp"]) > 2)
+    # exhaustive small scope: every string of <= k atoms of a reduced xpath alphabet on fixed trees
+    import itertools
+
+    atoms = ["a", "k", "/", "[", "]", "*", "..", "0", "-1", "last()", "text()", "=", "!=", "~", "'", "v", "[0]", "[*]", "1", "+"]
+    k = 3 if ctx.tier == "thorough" else 2
+    fixed = [
+        {"a": {"k": "v", "e": 1}, "k": [{"a": "v", "k": "1"}, {"k": "v"}, [0, "v"]], "v": None},
+        [{"a": [1, {"k": "v"}]}, ["v", {"a": "1"}], "v"],
+    ]
+    ex = []
+    for t in fixed:
+        for n in range(1, k + 1):
+            for tup in itertools.product(atoms, repeat=n):
+                ex.append({"tree": t, "mode": "n0", "xp": "".join(tup)})
+    ctx.evaluate("lookup/exhaustive", ex, check_lookup, in_known=in_known)
+    ctx.extra["exhaustive_subspace"] = "all strings of <= %d atoms over %d xpath atoms on %d fixed trees (dict root and list root)" % (k, len(atoms), len(fixed))
+    cases = cases + ex
     rng = ctx.rng("kinds")
     lk = [dict(c, kind=rng.choice("gif"), d=rng.choice([None, "D", 0])) for c in cases]
 
